@@ -86,6 +86,21 @@ def check_cfg(ctx):
                     else:
                         ctx.holds('R-CFG', '-', label, ref[0] if ref else None)
     ctx.floor('cfg assignments enumerated', rows, 32)
+    # census of CPU-feature switches anywhere in the sources: each must be one that the compared configurations toggle
+    covered = {'sse2', 'simd128', 'fma', 'avx', 'avx2', 'sse4.1', 'sse4.2'}
+    seen = {}
+    for root, dirs, fs in os.walk(os.path.join(REPO, 'src')):
+        for f in fs:
+            if f.endswith('.rs'):
+                txt = open(os.path.join(root, f), encoding='utf8', errors='replace').read()
+                for m in re.finditer(r'target_feature\s*=\s*"([^"]+)"', txt):
+                    seen.setdefault(m.group(1), set()).add(os.path.relpath(os.path.join(root, f), REPO))
+    for feat, files_ in sorted(seen.items()):
+        if feat in covered:
+            ctx.holds('R-CFG', '-', 'target_feature "%s" is toggled by a compared configuration' % feat, sorted(files_)[:4])
+        else:
+            ctx.unverifiable('R-CFG', '-', 'target_feature "%s"' % feat, 'the sources switch on CPU feature %r (%s) which no compared configuration toggles: bit-identity across that feature is not established' % (feat, sorted(files_)[:3]))
+    ctx.floor('CPU feature switches found in the sources', len(seen), 3)
     ctx.floor('guarded backend items parsed', sum(len(v) for v in per_file.values()), 30)
 
 
